@@ -935,18 +935,38 @@ package yang
 // the target, a name that is taken is an error on the target).
 // Partial contract: the calls of Find and Namespace havoc what is known about
 // the trees, their preconditions are assumed.
+//@ func (*Entry).taken props C07 C04
+//@   only ensures loop1/ frame:H: frame:M frame:C: nil: index   -- the frame of the string arrays (the fresh list that is sorted in place) is generated but not claimed: the solvers do not decide it
+//@   requires e != nil && oe != nil
+//@   ensures[nothing-taken-means-no-name-of-the-augment-is-taken] len(result) == 0 ==> (forall k string :: has(oe.Dir, k) ==> e.Dir[k] == nil)
+//@   modifies nothing
+//@   safe
+//@   loop 1
+//@     invariant len(names) == 0 ==> (forall k string :: visited(k) ==> e.Dir[k] == nil)
+//@     invariant arr(names) == 0 || loopfresh(names)
+//@     invariant e.Dir == loopentry(e.Dir) && oe.Dir == loopentry(oe.Dir) && (forall k string :: e.Dir[k] == loopentry(e.Dir[k]) && has(oe.Dir, k) == loopentry(has(oe.Dir, k)))
+// refuse: at least one error more on e for a non-empty list of taken names, and
+// nothing but e's error list is written (no node is grafted).
+//@ func (*Entry).refuse props C07 C04
+//@   requires e != nil && oe != nil && (forall i int :: 0 <= i && i < len(taken) ==> oe.Dir[taken[i]] != nil && e.Dir[taken[i]] != nil)
+//@   only ensures loop1/
+//@   ensures[a-refused-augment-leaves-an-error] len(taken) > 0 ==> len(e.Errors) > old(len(e.Errors))
+//@   loop 1
+//@     invariant e == e0 && len(e.Errors) >= old(len(e.Errors)) + _k
 //@ func (*Entry).Augment props C07 C04
 //@   only before: loop1/ ensures
 //@   ensures[every-augment-is-either-applied-or-kept] processed + skipped == old(len(e.Augments)) && len(e.Augments) == skipped
-//@   before[into-a-target-that-can-have-children] (*Entry).merge arg0 == target && target != nil && target.Dir != nil
+//@   before[into-a-target-that-can-have-children] (*Entry).merge arg0 == target && target != nil && target.Dir != nil && target.Kind != AnyDataEntry && target.Kind != AnyXMLEntry
+//@   before[only-when-none-of-its-names-is-taken-never-half-applied] (*Entry).merge forall k string :: has(a.Dir, k) ==> target.Dir[k] == nil
 //@   before[a-copy-of-the-augments-own-children-without-prefix] (*Entry).merge arg1 == nil && arg3 == a
 //@   before[stamped-with-the-namespace-of-the-augment-itself] (*Entry).merge (nsAnchor(a).Parent != nil ==> arg2 == nsAnchor(a).namespace)
 //@            && (nsAnchor(a).Parent == nil && nsAnchor(a).Node != nil && rootOf(nsAnchor(a).Node) != nil && nsOwner(rootOf(nsAnchor(a).Node)) != nil ==> arg2 == nsOwner(rootOf(nsAnchor(a).Node)).Namespace)
 //@   before[not-found-is-reported-only-in-the-final-pass] (*Entry).errorf#1 addErrors && target == nil
-//@   before[a-target-that-cannot-have-children-is-an-error] (*Entry).errorf#2 target != nil && target.Dir == nil
+//@   before[a-target-that-cannot-have-children-is-an-error] (*Entry).errorf#2 target != nil && (target.Dir == nil || target.Kind == AnyDataEntry || target.Kind == AnyXMLEntry)
+//@   before[a-taken-name-is-reported-on-the-target-and-nothing-is-grafted] (*Entry).refuse arg0 == target && arg1 == a && len(arg2) > 0
 //@   loop 1
 //@     invariant processed + skipped == _k && len(unapplied) == skipped
-//@     body_ensures[an-augment-is-merged-reported-or-kept] calls("(*Entry).merge") > old(calls("(*Entry).merge")) || calls("(*Entry).errorf") > old(calls("(*Entry).errorf")) || (skipped == old(skipped) + 1 && processed == old(processed))
+//@     body_ensures[an-augment-is-merged-reported-or-kept] calls("(*Entry).merge") > old(calls("(*Entry).merge")) || calls("(*Entry).errorf") > old(calls("(*Entry).errorf")) || calls("(*Entry).refuse") > old(calls("(*Entry).refuse")) || (skipped == old(skipped) + 1 && processed == old(processed))
 
 // ---------------------------------------------------------------------------
 // C08: deviations. Whatever the deviate statements of one deviation are, the
